@@ -307,7 +307,7 @@ def run(ctx, rep):
         nobj, nalloc, nsched, nloops = run_config(ctx, rep, cfg)
         if cfg is None:
             rep.floor("C11.R1", "stack objects with reads", nobj, 35)
-            rep.floor("C11.R3", "allocation sites", nalloc, 4)
+            rep.floor("C11.R3", "allocation sites", nalloc, 1)
             rep.floor("C11.R5", "(keying function, schedule field) pairs", nsched, 9)
             rep.floor("C11.R6", "schedule loops", nloops, 12)
         else:
